@@ -328,6 +328,9 @@ def _register_world(mon, world):
 
 def exec_op(world, op):
     if op[0] == "edit":
+        eng = getattr(world, "engine", None)
+        if eng is not None:
+            eng.check_digests("before a caller-side edit")  # nothing pending may be absorbed by the new baseline
         apply_edit(world.get("docs", op[1]), op[2])
         world.edit_log.append((op[1], op[2]))
         mon = getattr(world, "monitor", None)
@@ -479,6 +482,7 @@ def run(case):
         light_window=_light_window(case, K),
         global_probe=global_token if (sk["mode"] == "pre" and sk["strategy"] == "after-write" and not scripted) else None,
     )
+    shared.engine = eng
     eng.run()
 
     # history oracle
